@@ -55,53 +55,35 @@ pub fn normalize_separators(path: &str) -> String {
 /// should match everything (like `**`), `GlobSet` handles empty strings correctly.
 #[must_use]
 pub(crate) fn normalize_for_matching(path: &Path) -> PathBuf {
-    let path_str = path.to_string_lossy();
-
     // An absolute path below the current directory is matched by its relative form, so that
     // `check /abs/project` and `check .` see the same patterns
-    let path_str = strip_current_dir(&path_str).map_or(path_str.clone(), std::borrow::Cow::Owned);
+    let relative = strip_current_dir(path);
+    let path_str = relative.as_deref().unwrap_or(path).to_string_lossy();
 
-    // Strip leading "./" (Unix) or ".\" (Windows)
-    let stripped = path_str
-        .strip_prefix("./")
-        .or_else(|| path_str.strip_prefix(".\\"))
-        .unwrap_or(&path_str);
+    // Backslashes are separators on every platform (Windows-style spellings in patterns and keys)
+    let unified = path_str.replace('\\', "/");
 
-    // Handle bare "." - return empty path (see doc comment for rationale)
-    if stripped.is_empty() || stripped == "." {
-        return PathBuf::new();
+    // Rebuild the path from its components: this drops `.` components and repeated or trailing
+    // separators, so `./src/a.rs`, `src//a.rs`, `src/./a.rs` spell `src/a.rs` and `src/`, `src/.`
+    // spell `src`. The project root (`.`, `./`) becomes the empty path (see doc comment).
+    let mut normalized = PathBuf::new();
+    for component in Path::new(&unified).components() {
+        if component != std::path::Component::CurDir {
+            normalized.push(component.as_os_str());
+        }
     }
-
-    // Normalize backslashes to forward slashes for consistent glob matching on all platforms.
-    if stripped.contains('\\') {
-        PathBuf::from(stripped.replace('\\', "/"))
-    } else {
-        PathBuf::from(stripped)
-    }
+    normalized
 }
 
 /// Relative form of an absolute path that lies below the current directory
-/// (`.` for the current directory itself), `None` for every other path.
-fn strip_current_dir(path_str: &str) -> Option<String> {
-    static CWD: std::sync::OnceLock<Option<String>> = std::sync::OnceLock::new();
-    if !Path::new(path_str).is_absolute() {
+/// (empty for the current directory itself), `None` for every other path.
+fn strip_current_dir(path: &Path) -> Option<PathBuf> {
+    static CWD: std::sync::OnceLock<Option<PathBuf>> = std::sync::OnceLock::new();
+    if !path.is_absolute() {
         return None;
     }
-    let cwd = CWD
-        .get_or_init(|| {
-            std::env::current_dir()
-                .ok()
-                .map(|p| p.to_string_lossy().into_owned())
-        })
-        .as_deref()?;
-    let rest = path_str.strip_prefix(cwd)?;
-    if rest.is_empty() {
-        return Some(".".to_string());
-    }
-    let rest = rest
-        .strip_prefix('/')
-        .or_else(|| rest.strip_prefix('\\'))?;
-    Some(if rest.is_empty() { ".".to_string() } else { rest.to_string() })
+    let cwd = CWD.get_or_init(|| std::env::current_dir().ok()).as_deref()?;
+    path.strip_prefix(cwd).ok().map(Path::to_path_buf)
 }
 
 /// Spelling-independent key of a path for baseline entries (`src/a.rs`, `.` for the root).
